@@ -41,9 +41,31 @@ func skey(k int) string { return fmt.Sprintf("key/%d", k) }
 type anyLocker struct {
 	l   keylock.Locker
 	str bool
+	mix bool // distinct keys that are the same number in different integer types (and a string)
 }
 
 func (a *anyLocker) key(k int) interface{} {
+	if a.mix {
+		// interface{} keys are equal only if type and value are equal: these are all different keys
+		switch k % 8 {
+		case 0:
+			return int(7)
+		case 1:
+			return int64(7)
+		case 2:
+			return uint32(7)
+		case 3:
+			return int8(7)
+		case 4:
+			return uint64(7)
+		case 5:
+			return "7"
+		case 6:
+			return int64(-1)
+		default:
+			return uint64(1<<64 - 1)
+		}
+	}
 	if a.str {
 		return skey(k)
 	}
@@ -105,20 +127,26 @@ func (t *tLocker[T]) unlock(ks []int, m string, multiAPI bool) {
 func (t *tLocker[T]) entries() int { return keylock.VerifEntriesT(t.l) }
 func (t *tLocker[T]) multi() bool  { return true }
 
-var variants = []string{"kl-int", "kl-str", "klg-int", "klgx-str", "tk-int", "tk-str", "tkg-int", "tkg-str", "tkgx-int", "tkgx-str"}
+var variants = []string{"kl-int", "kl-str", "klg-int", "klgx-str", "kl-mix", "klg-mix", "klgx-mix", "tk-int", "tk-str", "tkg-int", "tkg-str", "tkgx-int", "tkgx-str"}
 
 func newLocker(variant string, shards int) locker {
 	opt := remap.WithPrime(uint64(shards))
 	id := func(k int) int { return k }
 	switch variant {
 	case "kl-int":
-		return &anyLocker{keylock.NewKeyLocker(), false}
+		return &anyLocker{l: keylock.NewKeyLocker()}
 	case "kl-str":
-		return &anyLocker{keylock.NewKeyLocker(), true}
+		return &anyLocker{l: keylock.NewKeyLocker(), str: true}
 	case "klg-int":
-		return &anyLocker{keylock.NewKeyLockeGrp(opt), false}
+		return &anyLocker{l: keylock.NewKeyLockeGrp(opt)}
 	case "klgx-str":
-		return &anyLocker{keylock.NewXHashKeyLockeGrp(opt), true}
+		return &anyLocker{l: keylock.NewXHashKeyLockeGrp(opt), str: true}
+	case "kl-mix":
+		return &anyLocker{l: keylock.NewKeyLocker(), mix: true}
+	case "klg-mix":
+		return &anyLocker{l: keylock.NewKeyLockeGrp(opt), mix: true}
+	case "klgx-mix":
+		return &anyLocker{l: keylock.NewXHashKeyLockeGrp(opt), mix: true}
 	case "tk-int":
 		return &tLocker[int]{keylock.NewTKeyLocker[int](), id}
 	case "tk-str":
